@@ -227,7 +227,7 @@ def applyTrackR (cfg : RCfg) : RSt → List Json → Nat → Except String (Opti
   | r, e :: es, m => do
     let ev ← evOfJsonR r.st e
     match applyEvR cfg r ev with
-    | some r' => applyTrackR cfg r' es (max m (executing r').length)
+    | some r' => applyTrackR cfg r' es (max m (executingR r').length)
     | none => return none
 
 def snapshotR (nodes : List Nat) (prevFutured : List Ck) (st : St) : Json := Json.mkObj [
@@ -235,7 +235,7 @@ def snapshotR (nodes : List Nat) (prevFutured : List Ck) (st : St) : Json := Jso
   ("dispatched", Json.arr ((st.futured.drop prevFutured.length).map (findJob nodes st.ns)).toArray),
   ("tables", tablesJ nodes st.ns)]
 
-partial def playR (c : RCase) (cfg : RCfg) (sorted : List NodeId) : List (List Json) → RStep → List Ck → Array Json → Nat →
+def playR (c : RCase) (cfg : RCfg) (sorted : List NodeId) : List (List Json) → RStep → List Ck → Array Json → Nat →
     Except String (Array Json × Nat × String × Option Outcome × Option RSt)
   | _, .bad, _, acc, mx => return (acc, mx, "bad", none, none)
   | _, .done o r, _, acc, mx => return (acc, mx, "done", some o, some r)
